@@ -44,6 +44,7 @@ pub fn property() -> Property {
                 run: |cfg| run_part(cfg, total_strategy(), |s| TextCase { text: s.clone() }, check_total),
                 replay: |v| replay_case::<TextCase, _>(v, check_total),
             },
+            crate::props::fuzz_corpus_part!("fen"),
         ],
     }
 }
